@@ -14,6 +14,9 @@ use pyo3::types::PyBytes;
 #[pyfunction]
 pub fn get_master_key(py: Python, alg: u8, passwd: &[u8]) -> PyResult<PyObject> {
     let auth = AuthKey::new(alg)?;
+    if passwd.is_empty() {
+        return Err(PyValueError::new_err("empty password"));
+    }
     let mut out = vec![0u8; auth.get_key_size()];
     auth.password_to_master(passwd, &mut out);
     Ok(PyBytes::new(py, &out).into())
